@@ -568,6 +568,11 @@ func c12(r *Report) propMeta {
 		r.Rule("C12.R3", "E9 canonical-vote tag bytes against cometbft's generated struct tags")
 		c12Vote(r, deps)
 	}
+	// proto3 canonical encoding of the vote timestamp: a zero seconds / nanos field is OMITTED (seed C12-14 always wrote
+	// both: a precommit stamped on a whole second then rebuilds to other sign-bytes and no signer is recovered)
+	et := "client/grpc/oracle/proof.encodeTime"
+	r.Gate("seconds-field-omitted-when-zero", et, CallEff("proof.encodeUvarint", "call:Time.Unix"), []Cond{{Op: "EQL", A: []string{"call:Time.Unix"}, B: []string{"const:0"}, Want: false, Desc: "seconds != 0"}}, GateOpts{})
+	r.Gate("nanos-field-omitted-when-zero", et, CallEff("proof.encodeUvarint", "call:Time.Nanosecond"), []Cond{{Op: "EQL", A: []string{"call:Time.Nanosecond"}, B: []string{"const:0"}, Want: false, Desc: "nanos != 0"}}, GateOpts{})
 	r.Rule("C12.R4", "E12 proof assembly")
 	svc := "client/grpc/oracle/proof.proofServer.Proof"
 	r.Exists("proof-for-oracle-store", svc, CallEff("proof.GetMultiStoreProof"), 1)
